@@ -43,6 +43,7 @@ class Recorder:
         self.minima = {}
         self.samples = []
         self.notes = []
+        self.sets = {}
 
     def count(self, key, n=1):
         self.counters[key] = self.counters.get(key, 0) + n
@@ -75,6 +76,9 @@ class Recorder:
         cur = self.minima.get(key)
         if cur is None or value < cur[0]:
             self.minima[key] = [value, case]
+
+    def setadd(self, name, item):
+        self.sets.setdefault(name, set()).add(item)
 
     def sample(self, case, cap=4):
         if len(self.samples) < cap:
@@ -127,7 +131,7 @@ def shard_main(argv):
     res = {
         'counters': ctx.counters, 'evaluations': ctx.evaluations, 'failures': jsonable(ctx.failures),
         'fail_counts': ctx.fail_counts, 'maxima': jsonable(ctx.maxima), 'minima': jsonable(ctx.minima),
-        'samples': jsonable(ctx.samples), 'notes': ctx.notes, 'probes': probe.counts(),
+        'samples': jsonable(ctx.samples), 'notes': ctx.notes, 'sets': {k: sorted(map(repr, v)) for k, v in ctx.sets.items()}, 'probes': probe.counts(),
         'ledger': led.report(root) if led else {}, 'a5_file': a5file, 'wall': wall,
     }
     arr = array.array('Q', sorted(ctx.hashes))
@@ -164,7 +168,7 @@ def _run_one(prop, spec, tmp, timeout):
 # ----------------------------------------------------------------------------- merging
 def merge(results):
     m = {'counters': {}, 'evaluations': 0, 'failures': [], 'fail_counts': {}, 'maxima': {}, 'minima': {},
-         'samples': [], 'notes': [], 'probes': {}, 'ledger': {}, 'a5_file': None, 'shard_wall': []}
+         'samples': [], 'notes': [], 'sets': {}, 'probes': {}, 'ledger': {}, 'a5_file': None, 'shard_wall': []}
     hashes = set()
     for res in results:
         for k, v in res['counters'].items():
@@ -182,6 +186,8 @@ def merge(results):
         if len(m['samples']) < 8:
             m['samples'].extend(res['samples'][:2])
         m['notes'].extend(res['notes'])
+        for k, v in res.get('sets', {}).items():
+            m['sets'].setdefault(k, set()).update(v)
         for k, v in res['probes'].items():
             m['probes'][k] = m['probes'].get(k, 0) + v
         for f, rep in res['ledger'].items():
@@ -280,6 +286,7 @@ def check_main(prop, tier):
             'maxima_observed': m['maxima'], 'minima_observed': m['minima'],
             'probe_calls': m['probes'], 'line_reach': m['ledger'],
             'failure_counts': m['fail_counts'],
+            'distinct_observed': {k: {'count': len(v), 'examples': sorted(v)[:6]} for k, v in m['sets'].items()},
             'known_findings_matched': {k: len(v) for k, v in known.items()},
             'inconclusive_reasons': inconclusive, 'notes': m['notes'][:20],
             'a5_file': m['a5_file'], 'shards': len(specs), 'shard_wall_s': m['shard_wall'],
